@@ -686,6 +686,186 @@ def gen_history(ctx: Ctx, target: str, label: str, text: str) -> None:
     shutil.rmtree(root, ignore_errors=True)
 
 
+# --------------------------------------------------------------------------- models at the edge of what an uncached run accepts
+#
+# Strengthening after the seeded change C23-5 (`sys.setrecursionlimit(10000)` in the cache branch, never restored): what a
+# run accepts depends on PROCESS state (the recursion limit); a cached run that changes it accepts models which an uncached
+# run reports as "too deeply nested".  Class: models whose nesting depth goes from well inside to well beyond what an
+# uncached run accepts — per family of nesting a ladder of depths — each step in its OWN process.
+
+_TAIL = '\n\n__version__ = "dummy"\n__xml_namespace__ = "https://dummy.com"\n'
+
+
+def _something(inv: str, typ: str = "int", head: str = "") -> str:
+    return (head + f'@invariant(lambda self: {inv}, "Nested")\nclass Something:\n    x: {typ}\n\n'
+            f'    def __init__(self, x: {typ}) -> None:\n        self.x = x\n' + _TAIL)
+
+
+def deep_model(family: str, depth: int) -> str:
+    """A meta-model whose nesting of kind ``family`` is ``depth`` levels deep."""
+    d = depth
+    if family == "not-chain":  # the seed's witness shape: an invariant with d chained `not`
+        return _something("not " * d + "(self.x > 0)")
+    if family == "neg-chain":  # unary minus
+        return _something("- " * d + "self.x > 0")
+    if family == "arith-left":  # left-nested binary operations, no parentheses
+        return _something("self.x" + " + 1" * d + " > 0")
+    if family == "paren-or":  # explicitly nested disjunctions (the tokenizer limits parentheses itself)
+        return _something("(" * d + "self.x > 0" + "".join(f" or self.x > {k})" for k in range(d)))
+    if family == "wide-and":  # control: wide, not deep
+        return _something("self.x > 0" + "".join(f" and self.x > {k}" for k in range(d)))
+    if family == "nested-list-type":  # type annotation List[List[...[int]]]
+        return _something("len(self.x) >= 0", typ="List[" * d + "int" + "]" * d, head="from typing import List\n\n\n")
+    if family == "pattern-groups":  # nested groups in the pattern of a verification function
+        pat = "(" * d + "a" + ")" * d
+        return ('@verification\ndef matches_it(text: str) -> bool:\n    pattern = f"^' + pat + '$"\n    return match(pattern, text) is not None\n\n\n'
+                '@invariant(lambda self: matches_it(self.x), "Nested")\nclass Something:\n    x: str\n\n'
+                '    def __init__(self, x: str) -> None:\n        self.x = x\n' + _TAIL)
+    if family == "inheritance-chain":  # C0 <- C1 <- ... <- C{d}
+        out = ["class C0:\n    x: int\n\n    def __init__(self, x: int) -> None:\n        self.x = x\n"]
+        for k in range(1, d + 1):
+            out.append(f"class C{k}(C{k - 1}):\n    def __init__(self, x: int) -> None:\n        C{k - 1}.__init__(self, x)\n")
+        return "\n\n".join(out) + _TAIL
+    if family == "abstract-inheritance-chain":  # all but the last abstract, with_model_type at the root
+        out = ["@abstract\n@serialization(with_model_type=True)\nclass C0:\n    x: int\n\n    def __init__(self, x: int) -> None:\n        self.x = x\n"]
+        for k in range(1, d + 1):
+            out.append(("@abstract\n" if k < d else "") + f"class C{k}(C{k - 1}):\n    def __init__(self, x: int) -> None:\n        C{k - 1}.__init__(self, x)\n")
+        return "\n\n".join(out) + _TAIL
+    if family == "cprim-chain":  # chain of constrained primitives
+        out = ['@invariant(lambda self: len(self) > 0, "Non-empty")\nclass P0(str):\n    pass\n']
+        for k in range(1, d + 1):
+            out.append(f'@invariant(lambda self: len(self) < {1000 + k}, "Shorter")\nclass P{k}(P{k - 1}):\n    pass\n')
+        out.append(f"class Something:\n    x: P{d}\n\n    def __init__(self, x: P{d}) -> None:\n        self.x = x\n")
+        return "\n\n".join(out) + _TAIL
+    raise ValueError(family)
+
+
+DEEP_LADDERS: Dict[str, List[int]] = {
+    # depths from well inside to well beyond what an uncached run of the pinned tree accepts (edges on the pinned tree,
+    # CPython 3.12, default recursion limit: not-chain / arith-left 220..260, pattern-groups 60..100, parentheses and
+    # brackets 200 (tokenizer); an inheritance chain is accepted at any of these depths but cannot be PICKLED from ~200 on)
+    "not-chain": [200, 260],
+    "arith-left": [280],
+    "pattern-groups": [80, 120],
+    "inheritance-chain": [260],
+}
+DEEP_LADDERS_THOROUGH: Dict[str, List[int]] = {
+    "not-chain": [40, 210, 220, 230, 240, 250, 260, 270, 400, 600, 1500], "arith-left": [200, 210, 220, 230, 240, 250, 260, 270, 400, 600],
+    "pattern-groups": [40, 50, 60, 70, 90, 100, 250, 500], "inheritance-chain": [100, 120, 150, 170, 180, 190, 200, 220, 320, 500],
+    "abstract-inheritance-chain": [150, 190, 250, 400], "paren-or": [150, 190, 199, 200, 201, 210], "nested-list-type": [100, 150, 190, 199, 200, 201, 210],
+    "wide-and": [400],
+}
+
+_LOAD_CHILD = r"""
+import sys, json, pathlib
+from aas_core_codegen import run
+from harness.cache_rig import fingerprint, fp_digest
+p = pathlib.Path(sys.argv[1]); flag = sys.argv[2] == "1"
+try:
+    r = run.load_model(p, cache_model=flag)
+    out = {"st": "ok" if r[1] is None else "err", "err": r[1] or "", "fp": fp_digest(fingerprint(r)) if r[1] is None else ""}
+except BaseException as e:
+    out = {"st": "crash:" + type(e).__name__, "err": "", "fp": ""}
+sys.stdout.write("RESULT " + json.dumps(out) + "\n")
+"""
+DEEP_TIMEOUT = 600.0
+
+
+def load_in_fresh_process(model: pathlib.Path, flag: bool, tmpdir: pathlib.Path) -> Dict[str, Any]:
+    """``run.load_model(model, cache_model=flag)`` in its own interpreter (own recursion limit, own module state)."""
+    import time as _t
+
+    from harness.core import VERIF
+
+    env = dict(os.environ, PYTHONPATH=f"{REPO}{os.pathsep}{VERIF}", TMPDIR=str(tmpdir), PYTHONDONTWRITEBYTECODE="1")
+    env.pop("TEMP", None)
+    env.pop("TMP", None)
+    t0 = _t.time()
+    try:
+        proc = subprocess.run([sys.executable, "-B", "-c", _LOAD_CHILD, str(model), "1" if flag else "0"], env=env, stdout=subprocess.PIPE,
+                              stderr=subprocess.PIPE, timeout=DEEP_TIMEOUT, cwd=str(tmpdir))
+    except subprocess.TimeoutExpired:
+        return {"st": "timeout", "err": "", "fp": "", "secs": _t.time() - t0}
+    out: Dict[str, Any] = {"st": f"exit:{proc.returncode}", "err": proc.stderr.decode(errors="replace")[-300:], "fp": ""}
+    for line in proc.stdout.decode(errors="replace").splitlines():
+        if line.startswith("RESULT "):
+            try:
+                out = json.loads(line[7:])
+            except ValueError:
+                pass
+    out["err"] = str(out.get("err", "")).replace(str(model), "<model>")
+    out["secs"] = _t.time() - t0
+    return out
+
+
+def _deep_steps(text: str, root: pathlib.Path) -> Dict[str, Any]:
+    root.mkdir(parents=True, exist_ok=True)
+    model = root / "meta_model.py"
+    model.write_text(text, encoding="utf-8")
+    res: Dict[str, Any] = {}
+    for step, flag, td in (("uncached", False, "tmp-off"), ("cold", True, "tmp-on"), ("warm", True, "tmp-on")):
+        (root / td).mkdir(exist_ok=True)
+        res[step] = load_in_fresh_process(model, flag, root / td)
+    res["entries"] = sorted(p.name for d in (root / "tmp-on").iterdir() if d.is_dir() for p in d.iterdir())
+    res["off"] = sorted(p.name for p in (root / "tmp-off").iterdir())
+    shutil.rmtree(root, ignore_errors=True)
+    return res
+
+
+def judge_deep(ctx: Ctx, label: str, text: str, res: Dict[str, Any], stream: str) -> None:
+    inp = {"kind": "deep", "label": label, "text": text}
+    ctx.count(("deep", text), stream=stream)
+    un = res["uncached"]
+    ctx.hit(f"deep-uncached={un['st']}" + ("-too-deep" if "too deeply nested" in un["err"] else ""))
+    if un["st"] == "timeout":
+        ctx.note(f"deep model {label}: the uncached load did not finish within {DEEP_TIMEOUT:.0f} s; not judged")
+        return
+    for step in ("cold", "warm"):
+        got = res[step]
+        ctx.hit(f"deep-{step}={got['st']}")
+        if got["st"] == "timeout":
+            if un["secs"] * 10 < DEEP_TIMEOUT:
+                _fail_few(ctx, inp, f"{label}: the {step} cached load in a fresh process does not finish ({DEEP_TIMEOUT:.0f} s); the uncached load takes {un['secs']:.0f} s", f"C23:not-transparent:deep:{step}:timeout")
+            continue
+        if (got["st"], got["err"], got["fp"]) != (un["st"], un["err"], un["fp"]):
+            what = f"{un['st']}->{got['st']}" if got["st"] != un["st"] else ("error-text" if got["err"] != un["err"] else "symbol-table")
+            first = lambda r: " ".join(str(r["err"]).split())[:120]  # noqa: E731
+            _fail_few(ctx, inp, f"{label}: in separate processes the uncached load gives {un['st']} ({first(un)}) but the {step} cached load gives {got['st']} ({first(got)})",
+                      f"C23:not-transparent:deep:{step}:{what}")
+    if res["off"]:
+        _fail_few(ctx, inp, f"{label}: the uncached load left {res['off'][:3]} in the temp directory", "C23:touches-temp-dir-without-flag")
+    want = f"model-{hashlib.sha256(text.encode()).hexdigest()}.pickle"
+    extra = [e for e in res["entries"] if e != want]
+    if extra:
+        _fail_few(ctx, inp, f"{label}: after a cold and a warm load the cache directory holds {extra[:3]} beside the entry of the text", "C23:stray-after-clean-run" if any(e.endswith(".tmp") for e in extra) else "C23:entry-not-keyed-by-text-hash")
+    if un["st"] != "ok" and want in res["entries"]:
+        _fail_few(ctx, inp, f"{label}: a cache entry was written for a model that an uncached load rejects", "C23:entry-of-rejected-model")
+
+
+DEEP_CLI = [("not-chain", 280)]
+DEEP_CLI_THOROUGH = [("inheritance-chain", 260), ("not-chain", 200), ("arith-left", 250), ("pattern-groups", 80), ("pattern-groups", 120), ("abstract-inheritance-chain", 250)]
+
+
+def deep_models(ctx: Ctx) -> List[Tuple[str, str]]:
+    out = [(str(c.get("label", "corpus")), c["text"]) for c in corpus(ID) if c.get("kind") == "deep"]  # judged in the same parallel batch
+    out += [(f"{fam}-{d}", deep_model(fam, d)) for fam, ds in DEEP_LADDERS.items() for d in ds]
+    if ctx.tier == "thorough":
+        out += [(f"{fam}-{d}", deep_model(fam, d)) for fam, ds in DEEP_LADDERS_THOROUGH.items() for d in ds]
+    return out
+
+
+def deep_walk(ctx: Ctx, models: List[Tuple[str, str]], stream: str = "deep-models-separate-processes") -> None:
+    """uncached / cold / warm load of every model, every step in its own process, models in parallel."""
+    from concurrent.futures import ThreadPoolExecutor
+
+    root = ctx.scratch() / f"deep-{ctx.evaluations}"
+    with ThreadPoolExecutor(max_workers=8) as ex:
+        results = list(ex.map(lambda kv: _deep_steps(kv[1][1], root / f"m{kv[0]}"), list(enumerate(models))))
+    for (label, text), res in zip(models, results):
+        judge_deep(ctx, label, text, res, stream)
+    shutil.rmtree(root, ignore_errors=True)
+
+
 # --------------------------------------------------------------------------- CLI in a fresh process
 
 _CLI = r"""
@@ -736,16 +916,30 @@ def cli_run(target: str, model: pathlib.Path, snippets: pathlib.Path, out: pathl
     }
 
 
-def cli_history(ctx: Ctx, target: str, case: str) -> None:
+def cli_history(ctx: Ctx, target: str, case: str, text: Optional[str] = None, label: str = "") -> None:
+    """uncached / cold / warm CLI runs, each in a fresh process; on the fixture ``case`` or, with ``text``, on that model
+    text (with the snippets of ``case``)."""
     fx = fixture(target, case)
     if fx is None:
         return
     root = ctx.scratch() / f"cli-{target}-{case}-{ctx.evaluations}"
+    model = fx[0]
+    if text is not None:
+        root.mkdir(parents=True, exist_ok=True)
+        model = root / "meta_model.py"
+        model.write_text(text, encoding="utf-8")
+        case = label or "text"
     ref = None
     for k, (name, flag, td) in enumerate([("cli-uncached", False, "tmp-off"), ("cli-cold", True, "tmp-on"), ("cli-warm", True, "tmp-on")]):
         out = root / f"out{k}"
-        res = cli_run(target, fx[0], fx[1], out, flag, root / td)
+        try:
+            res = cli_run(target, model, fx[1], out, flag, root / td)
+        except subprocess.TimeoutExpired:
+            ctx.note(f"cli {target}/{case} {name}: no result within the time-out; not judged")
+            break
         inp = {"kind": "cli", "target": target, "case": case, "step": name}
+        if text is not None:
+            inp = {"kind": "clitext", "target": target, "label": case, "text": text, "step": name}
         ctx.count((target, case, name), stream="cli-fresh-process")
         ctx.hit(f"cli-rc={res['rc']}")
         for sig, what in judge_events(res, flag, out, root / td):
@@ -771,6 +965,13 @@ def _sequential(ctx: Ctx, with_model: bool) -> None:
     bases = ["enum", "constrained_primitives"] if ctx.tier == "quick" else cc.BASES + ["list_of_classes", "primitive_types"]
     for base in bases:
         cc.run_batch(ctx, list(cc.sequential_scenarios()), "sequential-histories", base=base, with_model=with_model)
+    # strengthening after the seeded changes C23-4 / C23-6: cached runs OVERLAPPING in time on one model text (each must
+    # behave as an uncached run), and the model file SAVED with another text between the steps of a cached run
+    cc.run_batch(ctx, list(cc.overlap_scenarios()), "overlapping-cold-runs", with_model=with_model)
+    cc.run_batch(ctx, list(cc.edit_scenarios()), "edit-during-run", with_model=with_model)
+    if ctx.tier == "thorough":
+        cc.run_batch(ctx, list(cc.two_writer_scenarios(0, 0)), "overlapping-cold-runs-all", with_model=with_model)
+        cc.run_batch(ctx, list(cc.edit_scenarios()), "edit-during-run", base="constrained_primitives", with_model=with_model)
     rnd = []
     for k in range(ctx.n(60, 800)):
         # random sequential histories: every run finishes before the next one starts; occasionally one crashes
@@ -779,6 +980,9 @@ def _sequential(ctx: Ctx, with_model: bool) -> None:
             ev.append(cc.sp(ctx.rng.choice([0, 0, 1, 2, 3, 7, 9]), 1 if ctx.rng.random() < 0.7 else 0))
             if ctx.rng.random() < 0.15:
                 ev += cc.st(i, ctx.rng.randint(0, 12)) + [(ctx.rng.choice(["ex", "ki"]), i)]
+            if ctx.rng.random() < 0.3:
+                # the model file of this run is saved with another text while the run is under way
+                ev += cc.st(i, ctx.rng.randint(0, 14)) + [cc.ed(i, ctx.rng.choice([0, 1, 2, 3, 7, 9]))]
             ev += cc.st(i, cc.FULL)
         rnd.append((f"seq-random-{k}", ev, False))
     cc.run_batch(ctx, rnd, "sequential-random", with_model=with_model)
@@ -801,7 +1005,7 @@ def oracle(ctx: Ctx) -> None:
         check_plumbing(ctx, False)
         _sequential(ctx, False)
     for c in corpus(ID):
-        if c.get("kind") in ("history", "cli", "idsets", "plumb", "warmwalk", "genwalk"):
+        if c.get("kind") in ("history", "cli", "idsets", "plumb", "warmwalk", "genwalk", "clitext"):
             replay(ctx, c)
     cases = ["enum", "constrained_primitives"] if ctx.tier == "quick" else ["enum", "constrained_primitives", "deep_class_hierarchy", "list_of_classes", "list_of_primitives", "list_of_enums"]
     for target in TARGETS:
@@ -817,6 +1021,10 @@ def oracle(ctx: Ctx) -> None:
         for target in TARGETS:
             gen_history(ctx, target, fam, family_model(FAMILIES[fam]))
     cli_history(ctx, "python", "enum")
+    # models at the edge of what an uncached run accepts: every step in its own process (recursion limit = process state)
+    deep_walk(ctx, deep_models(ctx))
+    for fam, d in DEEP_CLI if ctx.tier == "quick" else DEEP_CLI + DEEP_CLI_THOROUGH:
+        cli_history(ctx, "jsonschema", "enum", text=deep_model(fam, d), label=f"{fam}-{d}")
     if ctx.tier == "thorough":
         check_unpickled(ctx, "aas_core_meta.v3")
         for target in ("jsonschema", "csharp", "java"):
@@ -845,6 +1053,10 @@ def replay(ctx: Ctx, data: Dict[str, Any]) -> Any:
         check_unpickled(ctx, inp["case"])
     elif kind == "warmwalk":
         warm_walk(ctx, inp.get("label", "replay"), inp["text"], "replay")
+    elif kind == "deep":
+        deep_walk(ctx, [(inp.get("label", "replay"), inp["text"])], stream="replay")
+    elif kind == "clitext":
+        cli_history(ctx, inp["target"], "enum", text=inp["text"], label=inp.get("label", "replay"))
     elif kind == "genwalk":
         gen_history(ctx, inp["target"], inp.get("label", "replay"), inp["text"])
     else:
